@@ -60,13 +60,20 @@ pub fn run(s: &Session) {
     s.assume("wire order of messages to one peer equals emission order (the TCP interface serialises writes per peer)");
     let mode = Mode { check_wire: true, check_sets: false };
     for (name, version) in [("exhaustive-v13", 13u64), ("exhaustive-v15-leios", 15)] {
-        let cfg = Cfg { peers: 1, max_peers: 2, max_warm: 1, max_hot: 1, max_error_count: 1, version };
+        let cfg = Cfg { peers: 1, max_peers: 2, max_warm: 1, max_hot: 1, max_error_count: 1, version, accept_peer_sharing: 1 };
         let (st, tr) = bfs(s, name, &cfg, &prefix(), &alphabet(), s.pick(7, 9), &mode, &interesting);
         s.note(&format!("{name}_states"), serde_json::json!(st));
         s.note(&format!("{name}_transitions"), serde_json::json!(tr));
     }
+    // the responder negotiates peer sharing off (Some(0)) or leaves the field out: the initiator must not speak that protocol
+    for (name, ps) in [("exhaustive-v13-peer-sharing-off", 0u8), ("exhaustive-v13-no-peer-sharing-field", 2)] {
+        let cfg = Cfg { peers: 1, max_peers: 2, max_warm: 1, max_hot: 1, max_error_count: 1, version: 13, accept_peer_sharing: ps };
+        let (st, tr) = bfs(s, name, &cfg, &prefix(), &alphabet(), s.pick(6, 8), &mode, &interesting);
+        s.note(&format!("{name}_states"), serde_json::json!(st));
+        s.note(&format!("{name}_transitions"), serde_json::json!(tr));
+    }
     for (name, version) in [("random-v13", 13u64), ("random-v15-leios", 15)] {
-        let cfg = Cfg { peers: 3, max_peers: 3, max_warm: 3, max_hot: 2, max_error_count: 2, version };
+        let cfg = Cfg { peers: 3, max_peers: 3, max_warm: 3, max_hot: 2, max_error_count: 2, version, accept_peer_sharing: 1 };
         s.forall(
             name,
             s.pick(10_000, 300_000),
